@@ -103,6 +103,10 @@ def run_one(d, props):
         sh(['git', '-C', REPO, 'worktree', 'remove', '--force', wt])
         shutil.rmtree(wt, ignore_errors=True)
         shutil.rmtree(scratch, ignore_errors=True)
+        if 'C20' in props:
+            # the C20 check regenerates Lean sources from the tree it is pointed at: put the clean tree's text back and rebuild
+            sh(['git', '-C', VERIF, 'checkout', '--', 'lean/MTfitVerif/Model/PyxKernels.lean', 'lean/MTfitVerif/Driver/PyxOps.lean'])
+            sh(['lake', 'build', 'MTfitVerif', 'mtfit_driver'], cwd=os.path.join(VERIF, 'lean'))
     prev = {}
     rp = result_path(d)
     if os.path.exists(rp):
